@@ -60,11 +60,20 @@ class Net:
         self.devices = [SimDevice(self, spec) for spec in population]
         self.vanished = set()     # labels not answering discovery at all
         self.timeline = None      # optional shared list also receiving ('dev', …) entries
+        self.on_event = None      # optional callback(event) after each logged request (what
+        #                           another thread does between two requests of this one)
 
     def log(self, label, method, args, outcome):
         self.events.append((label, method, args, outcome))
         if self.timeline is not None:
             self.timeline.append(('dev', label, method, args, outcome))
+        if self.on_event is not None:
+            hook, self.on_event = self.on_event, None     # not re-entered by its own requests
+            try:
+                keep = hook((label, method, args, outcome))
+            finally:
+                if self.on_event is None and keep:
+                    self.on_event = hook
 
     def attempt(self, label, method, args):
         if self.faults.should_fail(label, method):
